@@ -59,11 +59,15 @@ def build(spec, order=None, phases=True):
 
 
 def apply_phases(sys, spec):
-    if spec.get("phases"):
+    """spec["_phases_last"]: configure the components first, define the system phases last."""
+    last = spec.get("_phases_last")
+    if spec.get("phases") and not last:
         sys.set_sys_phases(copy.deepcopy(spec["phases"]))
     for n in spec["nodes"]:
         if n.get("pconf") is not None:
             sys.set_comp_phases(n["name"], copy.deepcopy(n["pconf"]))
+    if spec.get("phases") and last:
+        sys.set_sys_phases(copy.deepcopy(spec["phases"]))
 
 
 def solve(sys, **kw):
